@@ -55,7 +55,11 @@ func HarnessCopyLogs() {
 	case 2:
 		progress = make(chan string) // nobody reads
 	}
+	// "every batch size": whatever batchBytes is, copying at most three small entries has no
+	// business allocating more than a megabyte (and must not panic on an impossible allocation)
+	vrt.AllocLimit("C19.copy-allocation-independent-of-batch-size", 1<<20)
 	err := migrate.CopyLogs(ctx, dst, src, batchBytes, progress)
+	vrt.AllocLimit("", 0)
 	cancelled := ctx.cancelAt > 0 && ctx.calls >= ctx.cancelAt
 	df, _ := dst.FirstIndex()
 	dl, _ := dst.LastIndex()
